@@ -832,6 +832,9 @@ func checkC35(r *mon.Run) {
 		runC35Load(r, pool, rngL, i, r.Thorough() && i%2 == 1)
 	}
 
+	for i := 0; i < r.Pick(3, 12); i++ {
+		runC35LoadEdge(r, pool, rngL, i)
+	}
 	if r.Events("premise_started_trc_not_loaded") == 0 {
 		r.Class("premise/started-trcs-loaded")
 	}
@@ -843,4 +846,62 @@ func checkC35(r *mon.Run) {
 	r.Require(int64(caseNo), 60, "enum_case", "enum_store_case", "history", "notify_advanced", "notify_unchanged", "load_future_ignored",
 		"load_current_loaded", "latest_checked", "load_latest_checked", "db_write_fault_injected", "db_read_fault_injected",
 		"store_fault_stopped_update", "store_fault_retry_completed")
+}
+
+// runC35LoadEdge: a TRC file whose validity starts within the next second.
+// The directory is polled about half a second before the start: the file must
+// still be ignored. Judged only when the whole call ended before the start.
+func runC35LoadEdge(r *mon.Run, pool *gen.Pool, rng *rand.Rand, idx int) {
+	ctx := context.Background()
+	dir, err := os.MkdirTemp("", "pkitrust-c35e-")
+	if err != nil {
+		panic(err)
+	}
+	defer os.RemoveAll(dir)
+	dr := pool.Drawer(rng)
+	tgen := time.Now()
+	nb := tgen.Truncate(time.Second).Add(2 * time.Second)
+	isd := gen.NewISD(dr.Take(6), 30+idx, 2, 2, 2, 2, tgen.Add(-30*24*hour), tgen.Add(30*24*hour))
+	base := isd.BaseTRC(1, tgen.Add(-5*hour).Truncate(time.Second), tgen.Add(8*hour))
+	upd := isd.Update(base, gen.RegularUpdate, nb, nb.Add(8*hour), 10*time.Minute, nil)
+	for i, t := range []gen.TRC{base, upd} {
+		if err := os.WriteFile(filepath.Join(dir, fmt.Sprintf("ISD%d-B1-S%d.trc", 30+idx, i+1)), t.Signed.Raw, 0o644); err != nil {
+			panic(err)
+		}
+	}
+	d := newTrustDB()
+	defer d.Close()
+	lead := time.Duration(150+rng.IntN(700)) * time.Millisecond
+	if w := time.Until(nb.Add(-lead)); w > 0 {
+		time.Sleep(w)
+	}
+	via := pick(rng, []string{"LoadTRCs", "TRCLoader"})
+	t0 := time.Now()
+	pan, stack := mon.Try(func() {
+		if via == "LoadTRCs" {
+			_, err = trust.LoadTRCs(ctx, dir, d)
+		} else {
+			l := &trust.TRCLoader{Dir: dir, DB: d}
+			_, err = l.Load(ctx)
+		}
+	})
+	t1 := time.Now()
+	wit := map[string]any{"via": via, "not_before": nb.Format(time.RFC3339), "call_started_before_start_ms": nb.Sub(t0).Milliseconds(),
+		"call_ended_before_start_ms": nb.Sub(t1).Milliseconds(), "err": fmt.Sprint(err)}
+	r.Eval(1)
+	if pan != nil {
+		r.Violation("C35:panic:"+mon.PanicSite(stack), fmt.Sprintf("%s panicked: %v", via, pan), wit)
+		return
+	}
+	if !t1.Before(nb) {
+		r.Inconclusive("time-bracket")
+		return
+	}
+	got, gerr := d.SignedTRC(ctx, upd.ID())
+	loaded := gerr == nil && !got.IsZero()
+	r.Event("load_edge_second_judged")
+	r.Class(fmt.Sprintf("load/%s/starts-within-the-next-second/loaded=%v", via, loaded))
+	if loaded {
+		r.Violation("C35:future-trc-loaded", fmt.Sprintf("a TRC whose validity starts %d ms after the call ended was loaded via %s", nb.Sub(t1).Milliseconds(), via), wit)
+	}
 }
